@@ -273,7 +273,7 @@ FTMarkFastFinalized(p, blk) ==
            p1  == [p EXCEPT !.fst[s] = <<"fin", h>>]
        IN CASE old[1] \in {"fin", "ifin"} ->
                  IF old[2] # h THEN [p |-> Panic(p1, "consensus safety violation"), fe |-> EmptyFE]
-                 ELSE [p |-> p, fe |-> EmptyFE]           \* INTENDED: status unchanged
+                 ELSE [p |-> p1, fe |-> EmptyFE]          \* as coded: ifin is upgraded to fin, no event
             [] old[1] = "notar" /\ old[2] # h ->
                  [p |-> Panic(p1, "consensus safety violation"), fe |-> EmptyFE]
             [] old[1] = "iskip" ->
